@@ -95,6 +95,19 @@ def code_of(site, path):
     return None
 
 
+def nondefault_anchor(site):
+    """AddressAnchor makes something else of an address than the decimal number"""
+    return any(_fmt(site['afmt'], site['base'], a) != str(a) for a in (7, 40000))
+
+
+def ranchor_target(site, rec):
+    """file ('a/b/c') that a #R macro with an explicit anchor (meta['ranchors'] record) links to"""
+    c = site['codes'][rec['tc']]
+    if site['single']:
+        return '/'.join(c['asm1'])
+    return '/'.join(c['dir'] + [_fmt(site['ffmt'], site['base'], rec['ea'])])
+
+
 def violation_key(t, fail):
     """'clause|...' from TLC -> (stable key naming the class of input, description)."""
     site, meta = t['site'], t['meta']
@@ -121,6 +134,12 @@ def violation_key(t, fail):
                 what = ':anchor-of-instruction'       # the instruction exists in the target disassembly, its anchor does not
             elif frag in anchors:
                 what = ':anchor-of-other-code'
+            for rec in meta.get('ranchors', ()):
+                # the fragment is the explicit anchor of a generated #R macro, exactly as written in the source
+                if what != ':remote-operand' and not site['single'] and rec['txt'] == frag and ranchor_target(site, rec) == to:
+                    where = 'entry-address' if rec['a'] == rec['ea'] else 'entry-point'
+                    what = ':R%s-%s#%s-anchor-as-written' % ('@remote' if rec['tc'] != rec['ctx'] else '', where, rec['kind'])
+                    break
             if what == ':remote-operand':
                 return 'fragment:single-page:remote-operand', ('fragment: %s links to %s#%s, the anchor of an @remote address '
                                                                'that lives on another page' % (src, to, frag))
@@ -177,6 +196,40 @@ def vacuity_classes(t, cnt):
             cnt['site: css/js referenced from three depths'] += 1
             break
     m = t['meta']
+    # links that #R macros with an explicit anchor produced: a recorded link to the page of the containing entry whose
+    # fragment is either the anchor as written or the AddressAnchor form of the address it names (page per entry), or
+    # the anchor of the addressed instruction (single page, where the explicit anchor is dropped)
+    seen = set()
+    for e in t['ev']:
+        if e[0] == 'w':
+            src = '/'.join(e[1])
+            for href, frag in e[3]:
+                seen.add((resolve(src, href), frag))
+    nd = nondefault_anchor(site)
+    for rec in m.get('ranchors', ()):
+        to = ranchor_target(site, rec)
+        numeric = rec['kind'] in ('entry', 'self', 'other')
+        if site['single']:
+            if (to, _fmt(site['afmt'], site['base'], rec['a'])) not in seen:
+                continue
+            if numeric and nd:
+                cnt['#R link: explicit numeric anchor, non-default AddressAnchor, single page'] += 1
+            continue
+        frags = {rec['txt']} | ({_fmt(site['afmt'], site['base'], rec['v'])} if rec['v'] is not None else set())
+        if not any((to, f) in seen for f in frags):
+            continue
+        cnt['#R link: explicit anchor of kind ' + rec['kind']] += 1
+        remote = rec['tc'] != rec['ctx']
+        if numeric and nd:
+            cnt['#R link: explicit numeric anchor, non-default AddressAnchor'] += 1
+            if rec['kind'] == 'entry' and rec['a'] != rec['ea']:
+                cnt['#R link: entry point%s with the entry address as anchor, non-default AddressAnchor' % (' @remote' if remote else '')] += 1
+            if rec['kind'] == 'entry' and rec['a'] == rec['ea']:
+                cnt['#R link: entry address%s with itself as anchor, non-default AddressAnchor' % (' @remote' if remote else '')] += 1
+        if rec['kind'] == 'entry' and not nd and rec['txt'].startswith('$'):
+            cnt['#R link: $hex anchor for the entry address, default AddressAnchor'] += 1
+        if rec['kind'] == 'fmt' and nd:
+            cnt['#R link: anchor written in the AddressAnchor form'] += 1
     cnt['site: single page' if site['single'] else 'site: page per entry'] += 1
     if len(m['runs']) > 1:
         cnt['site: two runs with complementary -w'] += 1
@@ -195,7 +248,17 @@ REQUIRED = ['link other-code page -> main entry', 'link main page -> other-code 
             'site: one entry listed by map pages at different depths', 'site: one image referenced from pages at different depths',
             'site: css/js referenced from three depths', 'site: single page', 'site: page per entry',
             'site: two runs with complementary -w', 'site: one run with a -w subset', 'site: non-default AddressAnchor',
-            'site: other-code disassemblies', 'option -1', 'option -a', 'option -C', 'option -D', 'option -H', 'option -l', 'option -u']
+            'site: other-code disassemblies',
+            '#R link: explicit numeric anchor, non-default AddressAnchor',
+            '#R link: explicit numeric anchor, non-default AddressAnchor, single page',
+            '#R link: entry point with the entry address as anchor, non-default AddressAnchor',
+            '#R link: entry point @remote with the entry address as anchor, non-default AddressAnchor',
+            '#R link: entry address with itself as anchor, non-default AddressAnchor',
+            '#R link: entry address @remote with itself as anchor, non-default AddressAnchor',
+            '#R link: $hex anchor for the entry address, default AddressAnchor',
+            '#R link: anchor written in the AddressAnchor form',
+            '#R link: explicit anchor of kind entry', '#R link: explicit anchor of kind self', '#R link: explicit anchor of kind other',
+            '#R link: explicit anchor of kind fmt', '#R link: explicit anchor of kind custom', 'option -1', 'option -a', 'option -C', 'option -D', 'option -H', 'option -l', 'option -u']
 
 
 def judge_traces(rep, traces, wd, name):
@@ -331,13 +394,16 @@ def run(tier):
             seen.add(key)
             extra = (' [skool2html raised: %s]' % t['meta']['errors'][0]) if t['meta']['errors'] else ''
             rep.violation(key, 'site %s (options %s, -w %s): %s%s' % (t['key'], ' '.join(t['meta']['opts']), ','.join(t['meta']['runs']), what, extra), replay)
-    rep.rule = ('random abstract sites (2-8 main entries of every type + 0-2 other-code disassemblies, operands/#R/#LINK/image/audio '
-                'macros, [Paths] at different depths, AddressAnchor/CodeFiles formats, LinkOperands, -1 -a -C -D/-H -l/-u -o -O -j -T, '
+    rep.rule = ('random abstract sites (2-8 main entries of every type + 0-2 other-code disassemblies, operands/#R (with and without '
+                'explicit anchors: the entry address as decimal/$hex number from first instructions and entry points, local and @remote; '
+                'other instruction anchors as numbers or in AddressAnchor form; #HTML ids)/#LINK/image/audio macros, [Paths] at different depths, AddressAnchor/CodeFiles formats, LinkOperands, -1 -a -C -D/-H -l/-u -o -O -j -T, '
                 '-w subsets in one or two runs) rendered and run through real skool2html.main; each site is one trace of '
                 'WriteFile/CopyResource events; distinct_nontrivial = number of distinct relative links judged')
     rep.assumptions = ['html.parser tokenisation and URL splitting are trusted projections',
                        'ids count as anchors when they appear as id= on any element or name= on <a>',
                        'a link into a class of files deselected with -w (Excused in Site.tla) is not required to resolve',
+                       'explicit #R anchors that the documentation does not promise to exist (a number other than the entry address under an '
+                       'AddressAnchor that does not produce that number, a made-up name) are an input error and are not generated',
                        'more anchors for one address than the documented templates attach (Mult) is a violation, fewer (>=1) is drift']
     rmworkdir('c16')
     return rep.finish()
